@@ -289,6 +289,7 @@ class Arm(Robot):
                     i = i + 1
                 if success:
                     self._end_effector_pos_global = goal_position
+        self.FK(theta, protect=True)
         return theta, success
 
     def constrainedIK(self, goal_position : tm, theta_init : 'np.ndarray[float]' = None,
